@@ -18,6 +18,16 @@ Jobs (stdin: JSON list; stdout: JSON list, one result per job)
       first pixel shows.  Also the frames of ImageIterator(image', 1, spec) on a second
       instance.  Result: {"facts": source facts, "obs": [{"pos", "k", "trans", "iter_same"}],
       "iter": [{"k", "trans"} per frame]}.
+
+  {"kind": "gfx", "style": "iterm2" | "kitty", "bg": null | [r, g, b], "src": "file" | "pil-file" | "pil",
+   "mode": "RGBA" | "LA" | "P" | "RGB" | "L", "pixel": [r, g, b, a], "size": [w, h], "width": columns,
+   "set_method": null | name, "rff": null | bool, "spec": spec}                            (round 8)
+      A still PNG of that mode whose pixels all equal `pixel` (P: one palette entry with that
+      transparency) — as a file, a PIL image opened from the file, or a PIL image in memory — is
+      formatted with read_from_file as given (null = the library default).  Every transmitted
+      picture is decoded to RGBA pixels.  Result: {"facts": source facts incl. "srcpx" (the
+      file's pixel as Pillow reads it) and "modeclass", "k", "tpx": distinct transmitted pixels,
+      "verb": 1 payload == the file's bytes / 0 not / -1 no file}.
 """
 import implenv
 from implenv import tests
@@ -265,11 +275,151 @@ def job_frames(job):
         shutil.rmtree(tmp, ignore_errors=True)
 
 
+# ------------------------------------------------------------------------ transmitted pixels
+
+
+def sample_pixels(img):
+    rgba = img.convert("RGBA")
+    w, h = rgba.size
+    pts = {(0, 0), (w - 1, 0), (0, h - 1), (w - 1, h - 1), (w // 2, h // 2)}
+    return [tuple(rgba.getpixel(p)) for p in sorted(pts)]
+
+
+def decode_pixels(style, out):
+    """([RGBA pixels sampled from every transmitted picture], [payload bytes per picture])."""
+    toks = lexer.lex(out)
+    px, raws = [], []
+    if style == "iterm2":
+        for t in toks:
+            if t[0] == "iterm":
+                raw = base64.standard_b64decode(t[6])
+                raws.append(raw)
+                with Image.open(io.BytesIO(raw)) as p:
+                    px += sample_pixels(p)
+    else:
+        cur, done = None, []
+        for t in toks:
+            if t[0] == "kfirst":
+                cur = [t[1], [t[4]]]
+                if not t[2]:
+                    done.append(cur)
+                    cur = None
+            elif t[0] == "kcont" and cur is not None:
+                cur[1].append(t[3])
+                if not t[1]:
+                    done.append(cur)
+                    cur = None
+        for keys, parts in done:
+            raw = base64.standard_b64decode("".join(parts))
+            if keys["o"] == "z":
+                raw = zlib.decompress(raw)
+            raws.append(raw)
+            bpp = keys["f"] // 8
+            if bpp not in (3, 4):
+                with Image.open(io.BytesIO(raw)) as p:
+                    px += sample_pixels(p)
+                continue
+            if len(raw) != keys["s"] * keys["v"] * bpp:
+                raise ValueError("kitty payload size does not match s x v")
+            with Image.frombytes("RGBA" if bpp == 4 else "RGB", (keys["s"], keys["v"]), raw) as p:
+                px += sample_pixels(p)
+    if not raws:
+        raise ValueError("no picture transmitted")
+    return px, raws
+
+
+def make_still(path, mode, pixel, size):
+    r, g, b, a = pixel
+    size = tuple(size)
+    if mode == "RGBA":
+        img = Image.new("RGBA", size, (r, g, b, a))
+    elif mode == "LA":
+        img = Image.new("LA", size, (r, a))
+    elif mode == "RGB":
+        img = Image.new("RGB", size, (r, g, b))
+    elif mode == "L":
+        img = Image.new("L", size, r)
+    elif mode == "P":
+        img = Image.new("P", size, 0)
+        img.putpalette([r, g, b] + [0, 0, 0] * 255)
+        img.save(path, format="PNG", transparency=bytes([a]))
+        return
+    else:
+        raise ValueError(mode)
+    img.save(path, format="PNG")
+
+
+def job_gfx(job):
+    style = job["style"]
+    C = CLASSES[style]
+    setup_class(C)
+    tmp = tempfile.mkdtemp(prefix="c19gfx")
+    keep = []
+    bg = job["bg"]
+    tests.set_fg_bg_colors(fg=None if bg is None else (255, 255, 255), bg=None if bg is None else tuple(bg))
+    try:
+        path = os.path.join(tmp, "still.png")
+        make_still(path, job["mode"], job["pixel"], job["size"])
+        with open(path, "rb") as f:
+            file_bytes = f.read()
+        with Image.open(path) as probe:
+            mode = probe.mode
+            srcpx = list(probe.convert("RGBA").getpixel((0, 0)))
+        if job["src"] == "file":
+            im = C.from_file(path, width=job["width"])
+        else:
+            pil = Image.open(path)
+            keep.append(pil)
+            if job["src"] == "pil":
+                pil.load()
+                mem = pil.copy()          # no filename: nothing to read from
+                keep.append(mem)
+                pil = mem
+            im = C(pil, width=job["width"])
+        if job.get("set_method"):
+            im.set_render_method(job["set_method"])
+        if job.get("rff") is not None and C is ITerm2Image:
+            im.read_from_file = job["rff"]
+        rsz = im._get_render_size()
+        facts = {
+            "animated": bool(im.is_animated), "rendered": list(im.rendered_size),
+            "method": METHOD_NO[im._render_method],
+            "readable": job["src"] != "pil",
+            "fits": job["size"][0] * job["size"][1] <= rsz[0] * rsz[1],
+            "mode": mode,
+            "modeclass": "opaque" if mode in ("1", "L", "RGB", "HSV", "CMYK") else "pal" if mode in ("P", "PA") else "alpha",
+            "rff": bool(im.read_from_file) if C is ITerm2Image else False,
+            "srcpx": srcpx,
+        }
+        k, out = outcome(lambda: format(im, job["spec"]))
+        res = {"facts": facts, "k": k, "tpx": [], "verb": -1}
+        if k != 0:
+            res["exc"] = out
+            return res
+        kk, dec = outcome(lambda: decode_pixels(style, out))
+        if kk != 0:
+            res["k"], res["exc"] = 9, dec
+            return res
+        px, raws = dec
+        res["tpx"] = [list(p) for p in dict.fromkeys(px)]
+        if job["src"] != "pil":
+            res["verb"] = int(len(raws) == 1 and raws[0] == file_bytes)
+        return res
+    finally:
+        tests.set_fg_bg_colors((0, 0, 0), (0, 0, 0))
+        for p in keep:
+            try:
+                p.close()
+            except Exception:  # noqa: BLE001
+                pass
+        shutil.rmtree(tmp, ignore_errors=True)
+
+
 if __name__ == "__main__":
     res = []
     for job in implenv.read_cases():
         try:
-            res.append(job_alpha(job) if job["kind"] == "alpha" else job_frames(job))
+            res.append({"alpha": job_alpha, "gfx": job_gfx}.get(job["kind"], job_frames)(job))
         except Exception as e:  # noqa: BLE001
             import traceback
             res.append({"error": traceback.format_exc()[-1500:]})
